@@ -1084,6 +1084,189 @@ pub fn twin_rules() -> Vec<(String, String, Vec<DObj>)> {
             out.push((mk(false), mk(true), docs.clone()));
         }
     }
+    // whole-entry twins in a sequence of mappings: two entries that are equal except for the case
+    // flag of every member of their lists, next to each other, with 1-3 keys per entry and 0-3
+    // further entries around them (rows of one matrix; entries of one or-group)
+    for (members, full, _part) in &member_sets {
+        for n_keys in 1..=3usize {
+            for (before, after) in [(0usize, 0usize), (1, 0), (0, 2), (2, 1), (3, 3)] {
+                let entry = |ci: bool| -> String {
+                    let mut e = String::from("  - f1:\n");
+                    for m in members {
+                        e.push_str(&format!("    - '{}{m}'\n", if ci { "i" } else { "" }));
+                    }
+                    if n_keys >= 2 {
+                        e.push_str("    f2: 'b*'\n");
+                    }
+                    if n_keys >= 3 {
+                        e.push_str(&format!("    f3:\n    - '{}*c*'\n    - '{}d'\n", if ci { "i" } else { "" }, if ci { "i" } else { "" }));
+                    }
+                    e
+                };
+                let pad = |i: usize| -> String {
+                    match i % 3 {
+                        0 => format!("  - f1: pad{i}\n    f2: 'q*'\n"),
+                        1 => format!("  - f2: pad{i}\n    f3: [x{i}, y{i}]\n"),
+                        _ => format!("  - f3: 'pad{i}*'\n    f1: ['*p{i}*', '*r{i}*']\n"),
+                    }
+                };
+                let mk = |first_ci: bool| {
+                    let mut body = String::new();
+                    for i in 0..before {
+                        body.push_str(&pad(i));
+                    }
+                    body.push_str(&entry(first_ci));
+                    body.push_str(&entry(!first_ci));
+                    for i in 0..after {
+                        body.push_str(&pad(before + i));
+                    }
+                    format!("detection:\n  A:\n{body}  condition: A\ntrue_positives: []\ntrue_negatives: []\n")
+                };
+                let docs: Vec<DObj> = [full.to_string(), full.to_uppercase(), "zz".to_string()]
+                    .into_iter()
+                    .flat_map(|t| {
+                        vec![
+                            DObj(vec![("f1".to_string(), DocVal::Str(t.clone())), ("f2".to_string(), DocVal::s("bx")), ("f3".to_string(), DocVal::s("xCx"))]),
+                            DObj(vec![("f1".to_string(), DocVal::Str(t.clone())), ("f2".to_string(), DocVal::s("bx")), ("f3".to_string(), DocVal::s("xcx"))]),
+                            DObj(vec![("f1".to_string(), DocVal::Str(t)), ("f2".to_string(), DocVal::s("qx"))]),
+                        ]
+                    })
+                    .collect();
+                out.push((mk(false), mk(true), docs));
+            }
+        }
+    }
+    // twins inside big or-groups: X and Y are sequences of k mappings each (one of them holds the
+    // twin list), joined by `or` - the optimiser flattens them into one group of 2k entries
+    for (members, full, part) in member_sets.iter().take(3) {
+        for k in [1usize, 2, 7, 8, 9, 12, 20] {
+            for at in [0, k / 2, k - 1] {
+                let seq = |ci: bool, salt: &str| -> String {
+                    let mut b = String::new();
+                    for i in 0..k {
+                        if i == at {
+                            b.push_str("  - f1:\n");
+                            for m in members {
+                                b.push_str(&format!("    - '{}{m}'\n", if ci { "i" } else { "" }));
+                            }
+                        } else {
+                            match i % 3 {
+                                0 => b.push_str(&format!("  - f2: {salt}{i}\n")),
+                                1 => b.push_str(&format!("  - f1: '{salt}{i}*'\n    f2: z\n")),
+                                _ => b.push_str(&format!("  - f3: ['*{salt}{i}*', '{salt}x{i}']\n")),
+                            }
+                        }
+                    }
+                    b
+                };
+                let docs: Vec<DObj> = [full.to_string(), full.to_uppercase(), part.to_string(), part.to_uppercase(), "zz".to_string()]
+                    .into_iter()
+                    .map(|t| DObj(vec![("f1".to_string(), DocVal::Str(t)), ("f2".to_string(), DocVal::s("y"))]))
+                    .collect();
+                for cond in ["X or Y", "N or X or Y", "(X or N) or Y"] {
+                    let mk = |first_ci: bool| {
+                        format!(
+                            "detection:\n  X:\n{}  Y:\n{}  N:\n    f1: nomatch\n  condition: {cond}\ntrue_positives: []\ntrue_negatives: []\n",
+                            seq(first_ci, "u"),
+                            seq(!first_ci, "v")
+                        )
+                    };
+                    out.push((mk(false), mk(true), docs.clone()));
+                }
+            }
+        }
+    }
+    // cast twins: a sequence of 4-6 single-key mappings on one field, some under str() and some
+    // plain, whose needles are spelled like numbers / booleans; the field holds a number, a boolean
+    // or the same as text. The pair is the sequence as written and rotated.
+    for needles in [vec!["a", "5", "b", "c"], vec!["5", "a", "b", "c", "true"], vec!["x", "y", "z", "1*", "*5", "tr*"]] {
+        for cast_mask in [0b0001u8, 0b0010, 0b0101, 0b1000, 0b1111, 0b0000, 0b100000] {
+            let entries: Vec<String> = needles
+                .iter()
+                .enumerate()
+                .map(|(i, n)| if cast_mask >> i & 1 == 1 { format!("  - str(f1): '{n}'\n") } else { format!("  - f1: '{n}'\n") })
+                .collect();
+            let docs: Vec<DObj> = vec![
+                DocVal::Int(5), DocVal::UInt(5), DocVal::UInt(15), DocVal::s("5"), DocVal::Bool(true), DocVal::s("true"), DocVal::Float(5.0),
+                DocVal::s("a"), DocVal::s("zz"), DocVal::Int(1),
+            ]
+            .into_iter()
+            .map(|v| DObj(vec![("f1".to_string(), v)]))
+            .chain(std::iter::once(DObj::default()))
+            .collect();
+            for rot in 1..entries.len() {
+                let mk = |r: usize| {
+                    let mut e = entries.clone();
+                    e.rotate_left(r);
+                    format!("detection:\n  A:\n{}  condition: A\ntrue_positives: []\ntrue_negatives: []\n", e.concat())
+                };
+                out.push((mk(0), mk(rot), docs.clone()));
+            }
+        }
+    }
+    out
+}
+
+/// Key-order twins: identifiers whose mappings hold the same entries in different orders (equal as
+/// YAML mappings, different as rules: a mapping is the conjunction of its entries *in written
+/// order*, which decides between false and missing). The blocks come in sizes from a handful to a
+/// few hundred YAML nodes. Returns (rule text, documents).
+pub fn order_twin_rules() -> Vec<(String, Vec<DObj>)> {
+    let mut out = vec![];
+    for n in [1usize, 3, 14, 15, 16, 29, 30, 31, 32, 60, 64, 100, 200] {
+        let list = |stem: &str, indent: &str| -> String {
+            let mut l = String::new();
+            for i in 0..n {
+                l.push_str(&format!("{indent}- '{stem}{i}'\n"));
+            }
+            l
+        };
+        // flat blocks, nested blocks, and blocks that are members of a sequence
+        let flat = |first: &str, second: &str| format!("    {first}:\n{}    {second}:\n{}", list(first, "    "), list(second, "    "));
+        let nested = |first: &str, second: &str| {
+            format!("    o1:\n      {first}:\n{}      {second}:\n{}", list(first, "      "), list(second, "      "))
+        };
+        let seq = |first: &str, second: &str| {
+            format!("  - f3: never\n  - {first}:\n{}    {second}:\n{}", list(first, "    "), list(second, "    "))
+        };
+        let shapes: Vec<(String, String, bool)> = vec![
+            (flat("f1", "f2"), flat("f2", "f1"), false),
+            (nested("x", "y"), nested("y", "x"), true),
+            (seq("f1", "f2"), seq("f2", "f1"), false),
+        ];
+        for (a, b, inner) in shapes {
+            for cond in ["not A", "not B", "not A or not B", "not B or not A", "not (A or B)", "A or B", "not A and not B", "not B and B"] {
+                for swap in [false, true] {
+                    let (x, y) = if swap { (&b, &a) } else { (&a, &b) };
+                    let text = format!("detection:\n  A:\n{x}  B:\n{y}  condition: {cond}\ntrue_positives: []\ntrue_negatives: []\n");
+                    let (k1, k2) = if inner { ("x", "y") } else { ("f1", "f2") };
+                    let hit1 = DocVal::Str(format!("{k1}0"));
+                    let hit2 = DocVal::Str(format!("{k2}{}", n - 1));
+                    let mut docs = vec![];
+                    for (v1, v2) in [
+                        (None, Some(DocVal::s("zz"))),
+                        (Some(DocVal::s("zz")), None),
+                        (Some(hit1.clone()), Some(hit2.clone())),
+                        (Some(hit1.clone()), None),
+                        (None, Some(hit2.clone())),
+                        (Some(DocVal::s("zz")), Some(hit2.clone())),
+                        (Some(hit1.clone()), Some(DocVal::s("zz"))),
+                        (None, None),
+                    ] {
+                        let mut o = DObj::default();
+                        if let Some(v) = v1 {
+                            o.set(k1, v);
+                        }
+                        if let Some(v) = v2 {
+                            o.set(k2, v);
+                        }
+                        docs.push(if inner { DObj(vec![("o1".to_string(), DocVal::Obj(o))]) } else { o });
+                    }
+                    out.push((text, docs));
+                }
+            }
+        }
+    }
     out
 }
 
